@@ -7,6 +7,7 @@ import Hive.Proofs.DerivedCatalogue
 import Hive.Proofs.DerivedVar
 import Hive.Proofs.DerivedAsync
 import Hive.Proofs.DerivedEvict
+import Hive.Proofs.DerivedEvictLoop
 import Hive.Proofs.DerivedSortedWin
 import Hive.Spec.Derived
 import Hive.Gen.C14_Skel
@@ -107,6 +108,73 @@ theorem C14_eviction_pre (s : EV) (slot : Nat) : (s.step (.event slot)).2 = .pre
 
 example : (EV.init.run [.event 3, .event 0, .evict 0, .event 0, .evict 5, .event 9, .evict 2]).handed = [9, 0, 3] := by
   decide
+
+/-! ### `evict`'s probing loop on a fixed-width slot type (every type of `EvictionStateSlotType`) -/
+
+/-- Slot of a call. -/
+def EVOp.slot : EVOp → Nat
+  | .event s => s
+  | .evict s => s
+
+/-- Run with `evict`'s loop executed literally (`for i := start; i <= slot; i++ { probe; if i == slot { break } }`,
+`i++` wrapping around at `top`). -/
+def EV.runW (top : Nat) (s : EV) : List EVOp → EV
+  | [] => s
+  | op :: ops => EV.runW top (s.stepW top op).1 ops
+
+/-- **The repaired loop terminates for every slot of the type, the largest one included**, after exactly
+`slot - start + 1` iterations, and has collected the registered events of the slots `start … slot` in ascending order
+(what the abstract model `EV.step` triggers). -/
+theorem C14_eviction_loop_terminates (top : Nat) (events : List Nat) (start slot : Nat) (h1 : start ≤ slot) (h2 : slot ≤ top) :
+    evLoop top events slot (slot + 1 - start) start [] =
+      some ((List.range' start (slot + 1 - start)).filter (fun j => events.contains j)) := by
+  have := evLoop_spec top events slot h2 (slot + 1 - start) start [] (by omega) (by omega)
+  simpa using this
+
+/-- Non-vacuity at the top of an 8-bit type: `Evict(255)` with `lastEvictedSlot = 250` and events registered for 253
+and 255. -/
+example : evLoop 255 [255, 253, 9] 255 (255 + 1 - 251) 251 [] = some [253, 255] := by decide
+
+/-- **Every history of calls with slots of the type behaves as the abstract model** — so `C14_eviction`,
+`C14_eviction_unique` and `C14_eviction_pre` hold for the model with the literal loop on every slot type. -/
+theorem C14_eviction_width (top : Nat) (ops : List EVOp) (h : ∀ op ∈ ops, op.slot ≤ top) (s : EV) :
+    EV.runW top s ops = s.run ops := by
+  induction ops generalizing s with
+  | nil => rfl
+  | cons op ops ih =>
+    have hop : s.stepW top op = s.step op := by
+      apply EV.stepW_eq
+      intro slot he
+      have := h op (by simp)
+      simpa [he, EVOp.slot] using this
+    simp only [EV.runW, EV.run, hop]
+    exact ih (fun o ho => h o (by simp [ho])) _
+
+example : ∀ op ∈ [EVOp.event 255, .evict 254, .event 255, .evict 255], op.slot ≤ 255 := by decide
+
+theorem C14_eviction_width_triggered (top : Nat) (ops : List EVOp) (h : ∀ op ∈ ops, op.slot ≤ top) (slot : Nat)
+    (hh : slot ∈ (EV.runW top EV.init ops).handed) :
+    slot ∈ (EV.runW top EV.init ops).trig ↔ (EV.runW top EV.init ops).evicted slot = true := by
+  rw [C14_eviction_width top ops h] at hh ⊢
+  exact C14_eviction ops slot hh
+
+/-- Witness about the loop as it was (`for i := start; i <= slot; i++` without the `break`): with `slot` the largest
+value of the slot type it never exits — for every amount of fuel it is still running, from every value of the type
+(replayed on the implementation: `Evict(255)` on an `EvictionState[uint8]` did not return; fix commit in
+known_findings/C14.json).  Below the top it computes what the repaired loop computes (`evLoopOld_spec`). -/
+theorem C14_eviction_old_loop_witness (top : Nat) (events : List Nat) (fuel i : Nat) (acc : List Nat) (hi : i ≤ top) :
+    evLoopOld top events top fuel i acc = none :=
+  evLoopOld_top_never_exits top events fuel i acc hi
+
+theorem C14_eviction_old_loop_below_top (top : Nat) (events : List Nat) (start slot : Nat) (h1 : start ≤ slot + 1) (h2 : slot < top) :
+    evLoopOld top events slot (slot + 2 - start) start [] =
+      some ((List.range' start (slot + 1 - start)).filter (fun j => events.contains j)) := by
+  have := evLoopOld_spec top events slot h2 (slot + 1 - start) start [] (by omega)
+  have e : slot + 2 - start = slot + 1 - start + 1 := by omega
+  rw [e]
+  simpa using this
+
+example : (3 : Nat) ≤ 7 + 1 ∧ (7 : Nat) < 255 := by decide
 
 /-! ## WaitGroup, call by call -/
 
@@ -474,7 +542,7 @@ theorem C14_skeleton_evictionState_Evict : skel_evictionState_Evict = [
 /-- evictionState.evict (eviction_state_impl.go:59) -/
 theorem C14_skeleton_evictionState_evict : skel_evictionState_evict = [
   "lock e.mutex", "defer unlock e.mutex", "if{", "return", "}if", "if{", "}else{", "}if", "for{",
-  "call e.evictionEvents.Get", "if{", "call e.evictionEvents.Delete", "}if", "}for", "return"] := by decide
+  "call e.evictionEvents.Get", "if{", "call e.evictionEvents.Delete", "}if", "if{", "break", "}if", "}for", "return"] := by decide
 
 /-- derivedSet.inheritMutations (set_impl.go:304) -/
 theorem C14_skeleton_derivedSet_inheritMutations : skel_derivedSet_inheritMutations = [
